@@ -75,6 +75,8 @@ pub enum Asy {
     Sync,
     AsyncFn,
     ImplFuture,
+    /// `#[async_trait]` on the trait, `async fn` methods
+    AsyncTrait,
 }
 
 #[derive(Clone, Copy, Debug, PartialEq, Eq, Hash, Serialize, Deserialize)]
@@ -236,7 +238,7 @@ impl TraitCase {
         };
         match self.asy {
             Asy::Sync => format!("fn m{g}({}{params}){ret}", self.recv_decl()),
-            Asy::AsyncFn => format!("async fn m{g}({}{params}){ret}", self.recv_decl()),
+            Asy::AsyncFn | Asy::AsyncTrait => format!("async fn m{g}({}{params}){ret}", self.recv_decl()),
             Asy::ImplFuture => format!(
                 "fn m{g}({}{params}) -> impl std::future::Future<Output = {}>",
                 self.recv_decl(),
@@ -350,7 +352,8 @@ pub fn source(c: &TraitCase) -> String {
             (0..total).map(|i| if i == c.before { "real_m".to_string() } else { "_".to_string() }).collect::<Vec<_>>().join(", ")
         ),
     };
-    s.push_str(&format!("#[unimock({attr})]\npub trait Tr{trait_generics}{sized} {{\n"));
+    let async_trait_attr = if c.asy == Asy::AsyncTrait { "#[::async_trait::async_trait]\n" } else { "" };
+    s.push_str(&format!("#[unimock({attr})]\n{async_trait_attr}pub trait Tr{trait_generics}{sized} {{\n"));
     for i in 0..c.before {
         s.push_str(&format!("    fn other_b{i}(&self, x: u8) -> u8;\n"));
     }
@@ -511,6 +514,7 @@ pub fn judge(c: &TraitCase, line: &str) -> Result<CaseInfo, String> {
             Asy::Sync => "sync",
             Asy::AsyncFn => "async fn",
             Asy::ImplFuture => "-> impl Future",
+            Asy::AsyncTrait => "#[async_trait]",
         })
         .class(match c.api {
             Api::Module => "api:module",
@@ -546,7 +550,7 @@ pub fn case_strategy() -> impl Strategy<Value = TraitCase> {
         prop_oneof![4 => Just(Recv::Ref), 2 => Just(Recv::Mut), 1 => Just(Recv::Value), 1 => Just(Recv::Rc), 1 => Just(Recv::Arc), 1 => Just(Recv::PinMut), 1 => Just(Recv::Boxed)],
         params,
         0..6usize,
-        prop_oneof![3 => Just(Asy::Sync), 1 => Just(Asy::AsyncFn), 1 => Just(Asy::ImplFuture)],
+        prop_oneof![4 => Just(Asy::Sync), 1 => Just(Asy::AsyncFn), 1 => Just(Asy::ImplFuture), 1 => Just(Asy::AsyncTrait)],
         prop_oneof![3 => Just(Api::Module), 2 => Just(Api::Flattened), 1 => Just(Api::Hidden)],
         0..3usize,
         0..3usize,
@@ -610,6 +614,10 @@ pub fn case_strategy() -> impl Strategy<Value = TraitCase> {
             if matches!(ret, Ret::RefParam(_)) && matches!(recv, Recv::Mut | Recv::PinMut) {
                 ret = Ret::Str;
             }
+            if asy == Asy::AsyncTrait && (api == Api::Hidden || params.iter().any(|p| matches!(p, Param::TraitGeneric | Param::MethodGeneric | Param::ImplTrait)) || ret == Ret::Generic) {
+                // keep #[async_trait] shapes to what the crate's own tests exercise: non-generic, visible api
+                asy = Asy::AsyncFn;
+            }
             if asy != Asy::Sync && matches!(recv, Recv::Rc) {
                 // Rc<Self> futures are !Send; fine, but keep the grammar to what the macro documents
                 asy = Asy::Sync;
@@ -621,7 +629,7 @@ pub fn case_strategy() -> impl Strategy<Value = TraitCase> {
 pub const RULE: &str = "programs = generated #[unimock] traits: receiver {&self, &mut self, self, Rc<Self>, Arc<Self>, Pin<&mut Self>, Box<Self>} x 0-5 parameters from {u8, i32, &str, String, Vec<u8>, &u32, &[u8], &mut u32, &mut Vec<u8>, &mut &'static str, (u8,String), Option<&u32>, trait-level generic, method-level generic, impl Trait} with adjacent parameters often sharing a type x return {unit, u32, String, &u32 from self, &'a u32 from a parameter, generic} x {sync, async fn, -> impl Future} x api {module, flattened, hidden via unmock_with} x position of the method among 0-2 other methods; pairwise distinct argument values. Non-trivial = arity >= 2, or a &mut / generic / impl-Trait parameter, or a receiver other than &self, or async; distinct = distinct shape";
 
 fn spec<'a>() -> Spec<'a, TraitCase> {
-    Spec { project: "C05", prelude: PRELUDE, source: &source, judge: &judge, nbins: 16, max_shrink_steps: 30 }
+    Spec { project: "C05", prelude: PRELUDE, source: &source, judge: &judge, nbins: 16, max_shrink_steps: 30, extra_deps: "async-trait = \"0.1\"\n" }
 }
 
 pub fn run(ctx: &Ctx) -> Verdict {
